@@ -111,9 +111,10 @@ class UnitGen:
                         'sites': {str(k): v for k, v in f.sites.items()},
                         'lifts': {str(k): v for k, v in f.lifts.items()},
                         'substs': [[a, b] for (a, b, _) in f.substs],
-                        'renames': f.renames}
+                        'renames': f.renames,
+                        'rules': scoped_rules(self.rules_text, f.path)}
                 items.append({'kind': 'fn', 'name': f.name, 'opts': opts, '_mod': mp})
-        return {'repo': self.repo, 'rules': self.rules_text, 'type_map': self.type_map, 'ghost_fields': ghost,
+        return {'repo': self.repo, 'rules': scoped_rules(self.rules_text, ''), 'type_map': self.type_map, 'ghost_fields': ghost,
                 'templates': load_templates(),
                 'files': [{'path': p, 'items': its} for p, its in files.items()]}
 
@@ -443,6 +444,20 @@ class UnitGen:
 
     def text(self):
         return '\n'.join(l.text for l in self.lines) + '\n'
+
+
+def scoped_rules(text, fnpath):
+    """Rules may be scoped: `@<module path prefix> ID: pat => rep` applies only to functions under that prefix."""
+    out = []
+    for l in text.split('\n'):
+        st = l.strip()
+        if st.startswith('@'):
+            scope, rest = st[1:].split(None, 1)
+            if fnpath.startswith(scope):
+                out.append(rest)
+        else:
+            out.append(l)
+    return '\n'.join(out)
 
 
 def verus_view(text):
